@@ -384,16 +384,34 @@ class RecordPolicy:
 
 
 class CrashPolicy:
-    """Copy the directory before every event at which its state differs from the last copy."""
+    """Copy the directory before every event at which its state differs from the last copy.
+
+    Power-loss bookkeeping: ``touched`` = files opened for writing during the operation, ``synced`` = their on-disk
+    size when they were last fsynced (an fsync covers what has reached the file descriptor, not what is still in a
+    Python buffer).  At snapshot time a touched file whose on-disk size differs from its synced size has unsynced
+    data: everything beyond the synced size (the whole file if it was never fsynced) may be lost.
+    """
 
     def __init__(self, root, out_dir, max_snapshots=400):
         self.root = root
         self.out = out_dir
         self.seen = {}
-        self.snaps = []  # (event index, state hash, path, brief of the *next* event)
+        self.snaps = []  # dicts: at, state, path, next, unsynced=[(file, synced_size|None)]
         self.max = max_snapshots
-        self.unsynced = {}  # path -> True while written since last fsync (power-loss model)
+        self.touched = {}
+        self.synced = {}
         self.truncated = False
+
+    def _unsynced(self):
+        out = []
+        for p in sorted(self.touched):
+            try:
+                size = os.stat(p).st_size
+            except OSError:
+                continue
+            if self.synced.get(p) != size:
+                out.append((p, self.synced.get(p)))
+        return out
 
     def snapshot(self, ip, label, next_ev=None):
         h, _ = dir_state(self.root)
@@ -406,19 +424,28 @@ class CrashPolicy:
         shutil.copytree(self.root, dst, symlinks=True)
         self.seen[h] = dst
         self.snaps.append(dict(at=label, state=h, path=dst, next=(next_ev.brief(self.root) if next_ev else "end"),
-                               unsynced=sorted(self.unsynced)))
+                               unsynced=self._unsynced()))
 
     def before(self, ip, ev):
         # the previous events have been performed; what is on disk now is the crash state before `ev`
         self.snapshot(ip, ev.n, ev)
-        if ev.op in ("write", "open-w", "truncate"):
-            self.unsynced[ev.path] = True  # (flush/close after an fsync add no new data)
+        if ev.op in ("open-w", "write", "truncate"):
+            self.touched[ev.path] = True
         elif ev.op == "fsync":
-            self.unsynced.pop(ev.path, None)
-        elif ev.op in ("replace", "rename") and ev.path in self.unsynced:
-            self.unsynced[ev.path2] = self.unsynced.pop(ev.path)
+            try:
+                self.synced[ev.path] = os.stat(ev.path).st_size  # what has reached the descriptor so far
+            except OSError:
+                pass
+        elif ev.op in ("replace", "rename"):
+            if ev.path in self.touched:
+                self.touched[ev.path2] = self.touched.pop(ev.path)
+                if ev.path in self.synced:
+                    self.synced[ev.path2] = self.synced.pop(ev.path)
+                else:
+                    self.synced.pop(ev.path2, None)
         elif ev.op == "remove":
-            self.unsynced.pop(ev.path, None)
+            self.touched.pop(ev.path, None)
+            self.synced.pop(ev.path, None)
 
 
 class FaultPolicy:
